@@ -455,8 +455,23 @@ class Interp(object):
             return EQ(a.t, b.t)      # identity of abstract objects = equality of their denotation ids
         if isinstance(a, Bool) and isinstance(b, Bool):
             return EQ(a.t, b.t)
-        if isinstance(a, Fun) and isinstance(b, Fun) and a.kind == b.kind == "builtin":
-            return TRUE if a.name == b.name else FALSE
+        if isinstance(a, Fun) and isinstance(b, Fun):
+            if a.kind != b.kind:
+                return FALSE
+            if a.kind == "builtin":
+                return TRUE if a.name == b.name else FALSE
+            if a.kind == "elem-method":
+                from .builtins_ import method_key
+                return AND(EQ(a.elem.t, b.elem.t), EQ(method_key(self, a), method_key(self, b)))
+            if a.kind == "bound":
+                return TRUE if (a.contract is b.contract and a.self_ref.cid == b.self_ref.cid) else FALSE
+            if a.kind in ("lambda", "def"):
+                return TRUE if a.node is b.node else FALSE
+            if a.kind == "contract":
+                return TRUE if a.contract is b.contract else FALSE
+        if isinstance(a, (Fun, Ref, Opaque, Num, Bool, Str, Tup)) and isinstance(b, (Fun, Ref, Opaque, Num, Bool, Str, Tup)) \
+                and type(a) is not type(b) and (isinstance(a, (Fun, Ref)) or isinstance(b, (Fun, Ref))):
+            return FALSE      # a function / heap object is never identical to a value of another kind
         raise Unsupported("`is` between %r and %r" % (a, b))
 
     def num(self, v):
@@ -807,6 +822,8 @@ class Interp(object):
             return [(s, Fun("method", recv=v, name=attr))]
         if isinstance(v, Fun) and v.kind == "class":
             return [(s, Fun("classattr", cls=v.name, name=attr))]
+        if isinstance(v, Fun) and v.kind == "external" and v.mod == "sys" and v.name == "version_info" and attr == "major":
+            return [(s, Num(I(3)))]      # python-2 branches are folded away (DESIGN 2.4 item 8)
         raise Unsupported("attribute %s of %r" % (attr, v))
 
     def const_sv(self, pyval):
